@@ -582,13 +582,22 @@ class TIMachine(FormatMachine):
     def validity_for_dump(self, s, op):
         return self.validity(s)
 
-    def op_dump(self, op):
+    def _sane(self, op):
+        """a main_variant that does not name a top-level variant is not an input the properties speak about"""
         s = self.slot(op)
-        if s is not None and op.get("main_variant") is not None and not s.tainted:
-            keys = [s.model["vars"][v]["key"] for v in s.model["top"]]
+        if s is not None and op.get("main_variant") is not None:
+            keys = [s.model["vars"][v]["key"] for v in s.model["top"]] if not s.tainted else []
             if op["main_variant"] not in keys:
                 op = dict(op)
                 op.pop("main_variant")
+        return op
+
+    def op_c18_enum(self, op):
+        return FormatMachine.op_c18_enum(self, self._sane(op))
+
+    def op_dump(self, op):
+        s = self.slot(op)
+        op = self._sane(op)
         r = FormatMachine.op_dump(self, op)
         if r == "ok":
             path = self.path(op)
